@@ -36,7 +36,7 @@ var streams []stream
 // the order of the streams (and so the seeds they get) does not depend on
 // which files are compiled in
 var order = []string{"cache-seq", "head-seq", "attach", "get-seq", "latest-seq", "poller", "ws",
-	"cache-conc", "get-conc", "stress-rl", "stress-tr", "get-reorg", "reorg-conc"}
+	"cache-conc", "get-conc", "stress-rl", "stress-tr", "get-reorg", "reorg-conc", "get-park", "cache-park"}
 
 func init() {
 	streams = append(streams,
